@@ -74,6 +74,26 @@ func (i *interpreter) newError(fr *frame, msg string) value {
 	return call(i, fr, 0, errorsPkg.Func("New"), []value{msg})
 }
 
+// scriptReader: the command reads os.Stdin; the harness scripts its content in
+// verifharness/hx.Stdin, which stands in for any *os.File reader.
+func (i *interpreter) scriptReader(r iface) iface {
+	if r.t == nil {
+		return r
+	}
+	if p, ok := r.t.(*types.Pointer); ok {
+		if n, ok := p.Elem().(*types.Named); ok && n.Obj().Pkg() != nil && n.Obj().Pkg().Path() == "os" && n.Obj().Name() == "File" {
+			if hp := i.prog.ImportedPackage("verifharness/hx"); hp != nil {
+				if g, ok := hp.Members["Stdin"].(*ssa.Global); ok {
+					if s, ok := (*i.globals[g]).(iface); ok && s.t != nil {
+						return s
+					}
+				}
+			}
+		}
+	}
+	return r
+}
+
 // decoderReader returns the io.Reader stored in field 0 of a *Decoder.
 func decoderReader(args []value) iface {
 	p := args[0].(*value)
@@ -88,7 +108,7 @@ func decoderReader(args []value) iface {
 // kinds: 0 '{' 1 '}' 2 '[' 3 ']' 4 string 5 number 6 bool 7 null 8 io.EOF 9 syntax error
 func extJSONToken(fr *frame, args []value) value {
 	i := fr.i
-	r := decoderReader(args)
+	r := i.scriptReader(decoderReader(args))
 	res, ok := i.callMethod(fr, r, "NextTok")
 	if !ok {
 		panic(abortPath{"unsupported", "encoding/json tokenizer on a real reader (only scripted token streams are encoded)"})
@@ -159,7 +179,7 @@ func (i *interpreter) xmlDecoderReader(args []value) iface {
 // 4 ProcInst(target=a, inst=b) 5 Directive(a) 8 io.EOF 9 error
 func extXMLToken(fr *frame, args []value) value {
 	i := fr.i
-	r := i.xmlDecoderReader(args)
+	r := i.scriptReader(i.xmlDecoderReader(args))
 	res, ok := i.callMethod(fr, r, "NextXMLTok")
 	if !ok {
 		panic(abortPath{"unsupported", "encoding/xml tokenizer on a real reader (only scripted token streams are encoded)"})
@@ -205,6 +225,7 @@ func extXMLToken(fr *frame, args []value) value {
 func extHTMLParse(fr *frame, args []value) value {
 	i := fr.i
 	r, _ := args[0].(iface)
+	r = i.scriptReader(r)
 	res, ok := i.callMethod(fr, r, "HTMLDoc")
 	if !ok {
 		panic(abortPath{"unsupported", "x/net/html tree builder on a real reader (only scripted DOMs are encoded)"})
